@@ -4,8 +4,8 @@ from gx.flow import Flow
 
 TECHNIQUE = "switch-table extraction from MIR compared with the format's escape table; radix/width constants of the octal branch"
 EXPLANATION = ("Extracts from gix_quote::ansi_c::undo the table `escape character -> byte pushed` and requires it to be exactly git's "
-               "quote_c_style set (a b t n v f r \" \\ with their C values), that the octal branch is entered for exactly '0'..'3', reads two "
-               "more digits and parses with radix 8, and that every other escape byte reaches the UnsupportedEscapeByte error. "
+               "quote_c_style set (a b t n v f r \" \\ with their C values), that the octal branch is entered for exactly '0'..'3', hands a text of constant length 3 "
+               "(LIN) to the radix-8 parser, and that every other escape byte reaches the UnsupportedEscapeByte error. "
                "undo() contains no reverse byte search (the closing quote is the first unescaped one; positive control elsewhere). The consumed-byte count for all inputs is a value property and is not decided.")
 SPEC = {ord("n"): 10, ord("r"): 13, ord("t"): 9, ord("a"): 7, ord("b"): 8, ord("v"): 11, ord("f"): 12, ord('"'): 34, ord("\\"): 92}
 
@@ -38,6 +38,7 @@ def run(db, chk):
     for c in f.calls_to(r"btoi::to_unsigned_with_radix$"):
         radix |= {x for x in fl.const_roots(c.args[1]) if isinstance(x, int)}
     chk.ob("octal-radix", "undo octal branch", radix == {8}, "radix %s" % radix, "%s:%d" % (f.file, f.line), key="octal-radix")
+    octal_width_rule(db, chk, f, fl)
     # the otherwise arm must build UnsupportedEscapeByte
     ow = f.reach_from(best["otherwise"])
     err = any(rv[0] == "agg" and rv[3] == "UnsupportedEscapeByte" for bi, si, pl, rv, ln, mc in f.assigns() if bi in tab.straight_line(f, best["otherwise"], 20))
@@ -62,3 +63,18 @@ def forward_scan_rule(db, chk, f):
                c.where(), key="reverse-search|undo|%s" % c.name.split("::")[-1])
     if not hits:
         chk.ob("closing-quote-searched-forwards", "undo (no reverse search)", True)
+
+
+def octal_width_rule(db, chk, f, fl):
+    """git writes every non-printable byte as a backslash and EXACTLY three octal digits; a digit after them is an ordinary path byte.  So the
+    text handed to the radix-8 parser has the fixed length 3 (LIN: a [u8; 3], or a slice whose bounds differ by the constant 3), never a length
+    that depends on what follows the escape."""
+    from gx.lin import Evaluator
+    ev = Evaluator(f)
+    n = 0
+    for c in f.calls_to(r"btoi::to_unsigned_with_radix$"):
+        n += 1
+        ln_ = ev.length(c.args[0])
+        chk.ob("octal-escape-is-three-digits", "undo to_unsigned_with_radix@%d" % c.line, ln_.is_const() and ln_.c == 3,
+               "the octal escape text has length %s, not the constant 3: `\\3032` (byte 0o303 followed by the character 2) is read as one number" % ln_, c.where(), key="octal-width|undo")
+    chk.floor("undo: radix-8 parse of the octal escape", n, 1)
